@@ -289,14 +289,15 @@ def bindir():
     return d
 
 
-def build_vh(tags=("verif",), cgo=True, name=None, pkg="./cmd/vh", race=False):
+def build_vh(family, tags=("verif",), cgo=True, name=None, pkg=None, race=False):
     """(Re)build the harness binary against /repo's current tree. go's build cache makes this
     cheap when nothing changed; a change anywhere under /repo is picked up."""
+    pkg = pkg or "./cmd/vh_%s" % family
     key = (tuple(tags), cgo, pkg, race, REPO)
     if key in _BIN_CACHE:
         return _BIN_CACHE[key]
     if name is None:
-        name = "vh-" + hashlib.sha1(repr(key).encode()).hexdigest()[:8]
+        name = "vh_%s-" % family + hashlib.sha1(repr(key).encode()).hexdigest()[:8]
     out = os.path.join(bindir(), name)
     cmd = ["go", "build", "-o", out]
     if REPO != "/repo":
